@@ -855,10 +855,11 @@ func (k *Kernel) addFuturePrevote(
 	// but it is possible that it changed from future to current
 	// before the kernel processed the request.
 	if _, _, vStatus := s.FindView(req.H, req.R, "(*Kernel).addFuturePrevote"); vStatus != ViewFuture {
-		panic(fmt.Errorf(
-			"TODO: handle addFuturePrevote when the view has changed from future to %s",
-			vStatus,
-		))
+		// The view shifted between the mirror's lookup and this request,
+		// so the round is no longer a future round.
+		// The mirror prepared this request against the round store, not against a live view,
+		// so it cannot be applied any more; report it as out of date.
+		return AddVoteOutOfDate
 	}
 
 	// It's still a future view.
@@ -963,10 +964,11 @@ func (k *Kernel) addFuturePrecommit(
 	// but it is possible that it changed from future to current
 	// before the kernel processed the request.
 	if _, _, vStatus := s.FindView(req.H, req.R, "(*Kernel).addFuturePrecommit"); vStatus != ViewFuture {
-		panic(fmt.Errorf(
-			"TODO: handle addFuturePrecommit when the view has changed from future to %s",
-			vStatus,
-		))
+		// The view shifted between the mirror's lookup and this request,
+		// so the round is no longer a future round.
+		// The mirror prepared this request against the round store, not against a live view,
+		// so it cannot be applied any more; report it as out of date.
+		return AddVoteOutOfDate
 	}
 
 	// It's still a future view.
